@@ -97,7 +97,7 @@ inline Plan decode_plan(const ShapeDesc& sd, vk::Choice& c) {
   unsigned pp = c.upto(5); p.poison = pp < 4 ? pats[pp] : (uint8_t)c.upto(256);
   unsigned f = c.upto(20);
   if (f >= 12 && f < 17 && !callable_nodes.empty()) { p.fault_node = callable_nodes[c.upto((uint32_t)callable_nodes.size())]; p.fault_call = (int)c.upto(2); }
-  else if (f >= 17) { p.anon_fault = (long)c.upto(48); }
+  else if (f >= 17 || (f >= 9 && f < 12 && vk::ctx().argi("legacy", 0) == 0 && (vk::ctx().prop == "C02" || vk::ctx().prop == "C05"))) { p.anon_fault = (long)c.upto(48); }
   t += vk::sfmt("| stop:%s%s%s destroy_in_completion=%d%s poison=%02x", p.stop_before_start ? "before-start " : "", p.stop_tokens ? "as-event " : "", p.stop_after_completion ? "after-completion " : "", (int)p.destroy_on_completion, p.never_start ? " NEVER-STARTED" : "", p.poison);
   if (p.fault_node >= 0) t += vk::sfmt(" fault:callable(n%d,call%d)", p.fault_node, p.fault_call);
   if (p.anon_fault >= 0) t += vk::sfmt(" fault:throw-point#%ld", p.anon_fault);
